@@ -32,6 +32,10 @@ Definition is_nl (c : ascii) := Ascii.eqb c ch_nl.
 Inductive key_field := KFullname | KName.
 (** how get_oneshot_command stages the pickled [args, kwargs] of a single job *)
 Inductive stage_mode := Overwrite | IfAbsent.
+(** when oneshot_command removes a previous output file before calling the task: only on the path
+    that consulted the cache (shipped: the remove sits inside `if output_path and not args.no_cache`),
+    always, or never *)
+Inductive clear_mode := ClearCached | ClearAlways | ClearNever.
 
 (** ** Configuration extracted from the source by translate/tr_scratch.py *)
 Record cfg := {
@@ -41,7 +45,8 @@ Record cfg := {
   arr_suffix : str;                                              (* ARRAY_JOB_SUFFIX *)
   env_vars : list str;                                           (* lookup order of get_job_array_index *)
   key_task : key_field;                                          (* JobDescription.task_name *)
-  stage_input : stage_mode                                       (* get_oneshot_command, non-array branch *)
+  stage_input : stage_mode;                                      (* get_oneshot_command, non-array branch *)
+  clear_output : clear_mode                                      (* oneshot_command: output_file.remove() *)
 }.
 
 Definition shipped : cfg := {|
@@ -51,20 +56,29 @@ Definition shipped : cfg := {|
   arr_suffix := lit "array";
   env_vars := [lit "AWS_BATCH_JOB_ARRAY_INDEX"; lit "JOB_COMPLETION_INDEX"; lit "BATCH_TASK_INDEX"];
   key_task := KFullname;
-  stage_input := Overwrite
+  stage_input := Overwrite;
+  clear_output := ClearCached
 |}.
+
+Definition with_clear (m : clear_mode) (c : cfg) : cfg := {|
+  f_input := f_input c; f_output := f_output c; f_error := f_error c; f_hashes := f_hashes c;
+  d_jobs := d_jobs c; d_array := d_array c; arr_out_elem := arr_out_elem c; arr_err_elem := arr_err_elem c;
+  arr_suffix := arr_suffix c; env_vars := env_vars c; key_task := key_task c; stage_input := stage_input c;
+  clear_output := m |}.
 
 (** the variant that skips staging when an input file is already there *)
 Definition if_absent (c : cfg) : cfg := {|
   f_input := f_input c; f_output := f_output c; f_error := f_error c; f_hashes := f_hashes c;
   d_jobs := d_jobs c; d_array := d_array c; arr_out_elem := arr_out_elem c; arr_err_elem := arr_err_elem c;
-  arr_suffix := arr_suffix c; env_vars := env_vars c; key_task := key_task c; stage_input := IfAbsent |}.
+  arr_suffix := arr_suffix c; env_vars := env_vars c; key_task := key_task c; stage_input := IfAbsent;
+  clear_output := clear_output c |}.
 
 (** the variant in which jobs are grouped by the short task name only *)
 Definition by_name (c : cfg) : cfg := {|
   f_input := f_input c; f_output := f_output c; f_error := f_error c; f_hashes := f_hashes c;
   d_jobs := d_jobs c; d_array := d_array c; arr_out_elem := arr_out_elem c; arr_err_elem := arr_err_elem c;
-  arr_suffix := arr_suffix c; env_vars := env_vars c; key_task := KName; stage_input := stage_input c |}.
+  arr_suffix := arr_suffix c; env_vars := env_vars c; key_task := KName; stage_input := stage_input c;
+  clear_output := clear_output c |}.
 
 (** ** Array grouping (job_array.py JobDescription / JobArrayer, aws_batch.py _submit_array_job) *)
 Record tinfo := { t_ns : str; t_name : str; t_opts : str }.
@@ -312,7 +326,15 @@ Section Proto.
     end.
 
   (* the body of the try block, from "output_path = args.output" on *)
-  Definition oneshot_body (a : oargs) (idx : N) (fs : fs_t) : fs_t * run :=
+  (* output_file.remove() before the task is called *)
+  Definition clear_prev (c : cfg) (nc : bool) (fs : fs_t) (op : str) : fs_t :=
+    match clear_output c with
+    | ClearAlways => fs_remove fs op
+    | ClearCached => if nc then fs else fs_remove fs op
+    | ClearNever => fs
+    end.
+
+  Definition oneshot_body (c : cfg) (a : oargs) (idx : N) (fs : fs_t) : fs_t * run :=
     let outp : step (option str) :=
       match a_output a with
       | None => SOk None
@@ -335,13 +357,13 @@ Section Proto.
           let cached : step (fs_t * option obj) :=
             match output_path with
             | Some op =>
-                if a_no_cache a then SOk (fs, None)
+                if a_no_cache a then SOk (clear_prev c true fs op, None)
                 else match fs_read fs op with
-                     | None => SOk (fs_remove fs op, None)
+                     | None => SOk (clear_prev c false fs op, None)
                      | Some (BPickle b) =>
                          match load b with
                          | None => SRaise ELoad
-                         | Some r => if valid r then SOk (fs, Some r) else SOk (fs_remove fs op, None)
+                         | Some r => if valid r then SOk (fs, Some r) else SOk (clear_prev c false fs op, None)
                          end
                      | Some _ => SRaise ELoad
                      end
@@ -385,7 +407,7 @@ Section Proto.
     | SRaise e => (fs, Raised (PErr e))
     | SOk (idx, errp) =>
         let fs1 := match errp with Some p => fs_remove fs p | None => fs end in
-        match oneshot_body a idx fs1 with
+        match oneshot_body c a idx fs1 with
         | (fs2, Raised e) =>
             (match errp with Some p => fs_write fs2 p (BPickle (dump (Seq [e; tb_of e]))) | None => fs2 end, Raised e)
         | other => other
@@ -422,6 +444,17 @@ Section Proto.
     | Raised _ => CReject (parse_job_error c prefix h fs)
     | Unmodelled => CUnmodelled
     end.
+  (** the executors that judge a finished non-script job by its scratch files
+      (docker.iter_job_status: succeeded = output_file.exists(), hence DockerExecutor and every
+      executor's debug mode; AWSBatchExecutor._can_override_failed): output present -> done_job(result),
+      else reject_job(parse_job_error) *)
+  Definition collect_by_output (c : cfg) (prefix h : str) (fs : fs_t) : collected :=
+    match parse_job_result c prefix h None fs with
+    | PRes x => CDone x
+    | PLoadRaises => CRaises
+    | PAbsent => CReject (parse_job_error c prefix h fs)
+    end.
+
   Definition local (j : job) : collected :=
     match f (j_args j) (j_kwargs j) with Ret r => CDone r | Exc e => CReject e end.
 
